@@ -54,6 +54,11 @@ def main():
         print(out)
         return 2
     res = {"name": a.name, "property": meta["property"], "repo_head": sh("git -C %s rev-parse --short HEAD" % REPO)[1].strip()}
+    if a.no_confirm and os.path.exists(os.path.join(d, "result.json")):     # keep the earlier confirmation of the demonstration
+        old = json.load(open(os.path.join(d, "result.json")))
+        for k in ("demo_unchanged", "demo_changed", "demo_confirms", "unit_failures_unchanged", "unit_failures_changed", "new_unit_failures"):
+            if k in old:
+                res[k] = old[k]
     try:
         rc, out = sh("git -C %s apply %s" % (wt, os.path.join(d, "patch.diff")))
         res["patch_applies"] = rc == 0
